@@ -59,7 +59,7 @@ class Check(PropertyCheck):
     module = "Props.C06"
     extra_modules = ["Model.JobTrace"]
     theorems = ["C06_one_submitter_per_key", "C06_job_submitted_at_most_once", "C06_submitter_stays_visible",
-                "C06_refuted_as_shipped", "C06_witness_fixed"]
+                "C06_twin_records_provenance", "C06_refuted_as_shipped", "C06_witness_fixed"]
     variant = None
     assumptions = [
         "results of calls contain no Handle state that was rolled back meanwhile (such a CSE hit is deliberately re-derived)",
